@@ -183,6 +183,25 @@ def later_draft_case(rng):
     return {"op": "decorate", "args": {"schema": doc, "schema2": doc2, "insts": insts}, "meta": {"kw": 3, "later": k}}
 
 
+def other_draft_subschema_case(rng):
+    """Known finding D29. A keyword of the OTHER draft is an unknown keyword, but the schemas below it are still walked by Resolve
+    (checkStructure, resolveURIs, resolveRefs): a dangling $ref below `prefixItems` / `dependentSchemas` in a draft-07 document, or below
+    `additionalItems` / `dependencies` in a 2020-12 document, makes Resolve fail, where the same document without the keyword (or with
+    a truly unknown keyword holding the same value) resolves. Drawn rarely; the pair must differ exactly as the model (= the code) says."""
+    d7 = rng.random() < 0.6
+    base = Obj(([("$schema", rng.choice(gs.D7_URIS))] if d7 else []) + [("type", rng.choice(["object", "array", "string"]))])
+    doc2 = Obj(list(base.kvs))
+    dangling = Obj([("$ref", rng.choice(["#/nosuch", "#nosuchanchor", "#/definitions/zz"]))])
+    if d7:
+        k = rng.choice(["prefixItems", "dependentSchemas"])
+        doc2.set(k, [dangling] if k == "prefixItems" else Obj([("a", dangling)]))
+    else:
+        k = rng.choice(["additionalItems", "dependencies"])
+        doc2.set(k, dangling if k == "additionalItems" else Obj([("a", dangling)]))
+    insts = [gs.gen_instance(rng) for _ in range(3)] + [Obj([("a", gs.Num("1"))]), [gs.Num("1")]]
+    return {"op": "decorate", "args": {"schema": base, "schema2": doc2, "insts": insts}, "meta": {"kw": 2, "d29": k}}
+
+
 FAN_LEAVES = [
     (Obj([("type", "string")]), "s"), (Obj([("type", "integer")]), gs.Num("3")), (Obj([("type", "array")]), [gs.Num("1")]),
     (Obj([("type", "object")]), Obj([("a", gs.Num("1"))])), (Obj([("type", "null")]), None), (Obj([("type", "boolean")]), True),
@@ -251,7 +270,7 @@ def gen(rng, tier, n):
         r = rng.random()
         if r < 0.2:
             if rng.random() < 0.15:
-                ops.append(later_draft_case(rng))      # keywords of later drafts under draft-07 (findings D27, D28, fixed): ~3 %
+                ops.append(other_draft_subschema_case(rng) if rng.random() < 0.12 else later_draft_case(rng))      # keywords of later drafts under draft-07 (findings D27, D28, fixed): ~3 %
                 continue
             ops.append(remote_case(rng))
             continue
@@ -298,6 +317,14 @@ def judge(o, go, m):
             if st.startswith("violation"):
                 return st, side + ": " + d
         ga, gb = go.get("a") or {}, go.get("b") or {}
+        if (o.get("meta") or {}).get("d29"):
+            # known finding D29: both sides already agree with the model (= the code); the listed symptom is exactly "the document with
+            # the other draft's keyword fails to resolve, the one without resolves"
+            if ga.get("outcome") == "resolved" and gb.get("outcome") == "resolve-error":
+                return "known:D29", "a dangling $ref below `%s` (a keyword of the other draft) makes Resolve fail" % (o["meta"]["d29"],)
+            if (ga.get("outcome"), ga.get("verdicts")) == (gb.get("outcome"), gb.get("verdicts")):
+                return "agree", ""
+            return "violation", "D29 pair: %r %r vs %r %r" % (ga.get("outcome"), ga.get("verdicts"), gb.get("outcome"), gb.get("verdicts"))
         if (ga.get("outcome"), ga.get("verdicts")) != (gb.get("outcome"), gb.get("verdicts")):
             # a draft-07 validator ignores the keyword: the two documents must get the same outcome (of Resolve too) and verdicts
             # (findings D27, D28, fixed)
